@@ -357,8 +357,23 @@ def spec_served(case, out):
     return None
 
 
+def wire_framing(wire_hex):
+    """(declared Content-Length or None, Transfer-Encoding: chunked present) read off a response on the wire"""
+    head = unhx(wire_hex).split(b'\r\n\r\n', 1)[0].split(b'\r\n')[1:]
+    hs = {l.split(b': ', 1)[0].lower(): l.split(b': ', 1)[1] for l in head if b': ' in l}
+    cl = hs.get(b'content-length')
+    return (int(cl) if cl is not None and cl.isdigit() else (None if cl is None else cl.decode('latin1'))), hs.get(b'transfer-encoding') == b'chunked'
+
+
 def judge(case, out, m):
     v = []
+    fr = ((m or {}).get('model') or {}).get('framing')
+    if fr and 'panic' not in out:
+        # the framing automaton (Lean `Ohkami.Framing`: theorems never_both, no_content_204, content_announced, end_determinable) against the wire, GET and HEAD
+        for key, which in (('get', 'get'), ('head', 'head')):
+            if key in out:
+                got = wire_framing(out[key]); want = (fr[which]['cl'], fr[which]['te'])
+                if got != want: v.append(('disagree', f'{key.upper()}: Content-Length / chunked on the wire {got}, the framing model gives {want} ({fr[which]["content"]})'))
     if 'wire' in out and 'panic' not in out:
         bad = spec_served(case, out)
         if bad: v.append(('violation', bad))
